@@ -7,7 +7,7 @@
    P     : W -> V, "insert the centre into the frozen environment";  Pd : V -> W its adjoint
    Everything is a Section variable / hypothesis: the theorems hold for every instance.
    No linearity of P or H is needed for the ground-state bound.                                          *)
-From Coq Require Import Setoid Morphisms Ring.
+From Coq Require Import Setoid Morphisms Ring Arith Lia.
 From Coq.micromega Require Import OrderedRing.
 From RV Require Import Base.Rayleigh.
 
@@ -94,6 +94,30 @@ Theorem reported_is_state_energy c e :
 Proof. intros [Hp He]. split; [rewrite norm_preserved; exact Hp|]. rewrite norm_preserved, <- heff_form. exact He. Qed.
 
 End Ground.
+
+(* the same from the two quadratic-form identities alone (what Proofs/HeffProofs.v establishes for the chain:
+   <c, H_eff c> = <P c, H P c>  and  <P c, P c> = <c, c>), with the lower bound required only on a subset S of V
+   (the symmetry sector) that contains the range of P *)
+Section Forms.
+Variables V W : Type.
+Variable ipV : V -> V -> R.
+Variable ipW : W -> W -> R.
+Variable H : V -> V.
+Variable P : W -> V.
+Variable Heff : W -> W.
+Variable S : V -> Prop.
+Hypothesis form : forall c, ipW c (Heff c) == ipV (P c) (H (P c)).
+Hypothesis norm : forall c, ipV (P c) (P c) == ipW c c.
+Hypothesis range : forall c, S (P c).
+Variable lam : R.
+Hypothesis lower : forall x, S x -> lam * ipV x x <= ipV x (H x).
+
+Theorem variational_bound_forms c e : rayleigh e (ipW c c) (ipW c (Heff c)) -> lam <= e.
+Proof.
+  intros [Hpos He]. apply (sor_mul_le_cancel_r R rO rI rplus rtimes rminus ropp req rle rlt sor lam e (ipW c c) Hpos).
+  rewrite He, form, <- norm. apply lower. apply range.
+Qed.
+End Forms.
 
 (* ------------------------------------------------------------------ shifted target (H - omega)^2 *)
 Section Shifted.
@@ -248,4 +272,204 @@ Proof.
 Qed.
 
 End Roots.
+(* ------------------------------------------------------------------ several roots, general k (min-max) *)
+Section FiniteSums.
+
+Fixpoint rsum (n : nat) (f : nat -> R) : R := match n with O => 0 | S k => rsum k f + f k end.
+
+Lemma rsum_ext n f g : (forall i, (i < n)%nat -> f i == g i) -> rsum n f == rsum n g.
+Proof.
+  induction n as [|n IH]; intros H; cbn [rsum]; [reflexivity|].
+  rewrite IH by (intros i Hi; apply H; lia). rewrite (H n) by lia. reflexivity.
+Qed.
+Lemma rsum_zero n f : (forall i, (i < n)%nat -> f i == 0) -> rsum n f == 0.
+Proof.
+  induction n as [|n IH]; intros H; cbn [rsum]; [reflexivity|].
+  rewrite IH by (intros i Hi; apply H; lia). rewrite (H n) by lia. ring.
+Qed.
+Lemma rsum_add n f g : rsum n (fun i => f i + g i) == rsum n f + rsum n g.
+Proof. induction n as [|n IH]; cbn [rsum]; [ring|]. rewrite IH. ring. Qed.
+Lemma rsum_scale_l n c f : rsum n (fun i => c * f i) == c * rsum n f.
+Proof. induction n as [|n IH]; cbn [rsum]; [ring|]. rewrite IH. ring. Qed.
+Lemma rsum_opp n f : rsum n (fun i => - f i) == - rsum n f.
+Proof. induction n as [|n IH]; cbn [rsum]; [ring|]. rewrite IH. ring. Qed.
+
+Definition kd (i j : nat) : R := if Nat.eqb i j then 1 else 0.
+
+Lemma rsum_delta n i a : (i < n)%nat -> rsum n (fun j => a j * kd i j) == a i.
+Proof.
+  induction n as [|n IH]; intros Hi; [lia|]. cbn [rsum]. unfold kd at 2.
+  destruct (Nat.eqb_spec i n) as [->|Hne].
+  - rewrite rsum_zero; [ring|]. intros j Hj. unfold kd. destruct (Nat.eqb_spec n j) as [E|_]; [lia|ring].
+  - rewrite IH by lia. ring.
+Qed.
+
+Lemma rsum_le n f g : (forall i, (i < n)%nat -> f i <= g i) -> rsum n f <= rsum n g.
+Proof.
+  induction n as [|n IH]; intros H; cbn [rsum]; [apply (Rle_refl sor)|].
+  apply (Rplus_le_mono sor); [apply IH; intros i Hi; apply H; lia|apply H; lia].
+Qed.
+Lemma rsum_nonneg n f : (forall i, (i < n)%nat -> 0 <= f i) -> 0 <= rsum n f.
+Proof.
+  intros H. assert (E : 0 == rsum n (fun _ => 0)) by (symmetry; apply rsum_zero; reflexivity). rewrite E. apply rsum_le. exact H.
+Qed.
+Lemma rsum_pos n f : (forall i, (i < n)%nat -> 0 <= f i) -> (exists i, (i < n)%nat /\ 0 < f i) -> 0 < rsum n f.
+Proof.
+  induction n as [|n IH]; intros Hn [i [Hi Hp]]; [lia|]. cbn [rsum].
+  destruct (Nat.eq_dec i n) as [->|Hne].
+  - apply (Rplus_nonneg_pos sor); [|exact Hp]. apply rsum_nonneg. intros j Hj. apply Hn. lia.
+  - apply (Rplus_pos_nonneg sor); [|apply Hn; lia].
+    apply IH; [intros j Hj; apply Hn; lia|exists i; split; [lia|exact Hp]].
+Qed.
+
+(* remove index p from 0..n:  skip p enumerates the others *)
+Definition skip (p i : nat) : nat := if Nat.ltb i p then i else S i.
+
+Lemma rsum_split_at n f p : (p <= n)%nat -> rsum (S n) f == f p + rsum n (fun i => f (skip p i)).
+Proof.
+  induction n as [|n IH]; intros Hp.
+  - assert (p = 0%nat) by lia. subst. cbn. ring.
+  - destruct (Nat.eq_dec p (S n)) as [->|Hne].
+    + cbn [rsum]. rewrite (rsum_ext (S n) (fun i => f (skip (S n) i)) f).
+      * cbn [rsum]. ring.
+      * intros i Hi. unfold skip. destruct (Nat.ltb_spec i (S n)) as [_|H]; [reflexivity|lia].
+    + assert (Hp' : (p <= n)%nat) by lia. cbn [rsum] in *. rewrite (IH Hp').
+      assert (E : skip p n = S n) by (unfold skip; destruct (Nat.ltb_spec n p) as [H|H]; [lia|reflexivity]).
+      rewrite E. ring.
+Qed.
+
+Lemma skip_neq p i : skip p i <> p.
+Proof. unfold skip. destruct (Nat.ltb_spec i p) as [H|H]; lia. Qed.
+Lemma skip_lt p i n : (i < n)%nat -> (skip p i < S n)%nat.
+Proof. intros H. unfold skip. destruct (Nat.ltb i p); lia. Qed.
+Definition unskip (p i : nat) : nat := if Nat.ltb i p then i else Nat.pred i.
+Lemma unskip_skip p i : unskip p (skip p i) = i.
+Proof.
+  unfold unskip, skip. destruct (Nat.ltb_spec i p) as [H|H].
+  - destruct (Nat.ltb_spec i p) as [_|H']; [reflexivity|lia].
+  - destruct (Nat.ltb_spec (S i) p) as [H'|_]; [lia|reflexivity].
+Qed.
+
+Lemma zero_row_or_pivot n (r : nat -> R) : (forall i, (i < n)%nat -> r i == 0) \/ (exists p, (p < n)%nat /\ r p ~= 0).
+Proof.
+  induction n as [|n IH]; [left; intros i Hi; lia|].
+  destruct IH as [Hz|[p [Hp Hnz]]].
+  - destruct (Req_em sor (r n) 0) as [E|N].
+    + left. intros i Hi. destruct (Nat.eq_dec i n) as [->|Hne]; [exact E|apply Hz; lia].
+    + right. exists n. split; [lia|exact N].
+  - right. exists p. split; [lia|exact Hnz].
+Qed.
+
+(* m homogeneous linear equations in n > m unknowns over an ordered ring have a non-trivial solution *)
+Lemma homogeneous_solution : forall m n (M : nat -> nat -> R), (m < n)%nat ->
+  exists a : nat -> R, (exists i, (i < n)%nat /\ a i ~= 0) /\
+                       forall j, (j < m)%nat -> rsum n (fun i => M j i * a i) == 0.
+Proof.
+  induction m as [|m IH]; intros n M Hmn.
+  - exists (fun i => kd 0 i). split.
+    + exists 0%nat. split; [exact Hmn|]. unfold kd. cbn. intros E. apply (Rneq_0_1 sor). symmetry. exact E.
+    + intros j Hj. lia.
+  - destruct n as [|n]; [lia|]. assert (Hmn' : (m < n)%nat) by lia.
+    destruct (zero_row_or_pivot (S n) (M m)) as [Hz|[p [Hp Hnz]]].
+    + destruct (IH (S n) M ltac:(lia)) as [a [Ha Hs]]. exists a. split; [exact Ha|].
+      intros j Hj. destruct (Nat.eq_dec j m) as [->|Hne]; [|apply Hs; lia].
+      apply rsum_zero. intros i Hi. rewrite (Hz i Hi). ring.
+    + assert (Hp' : (p <= n)%nat) by lia.
+      set (M' := fun j i => M j (skip p i) * M m p - M j p * M m (skip p i)).
+      destruct (IH n M' Hmn') as [b [[i0 [Hi0 Hb0]] Hs]].
+      set (S0 := rsum n (fun i' => M m (skip p i') * b i')).
+      set (a := fun i => if Nat.eqb i p then - S0 else M m p * b (unskip p i)).
+      assert (Ea : forall i', a (skip p i') == M m p * b i').
+      { intros i'. unfold a. destruct (Nat.eqb_spec (skip p i') p) as [E|_]; [exfalso; exact (skip_neq p i' E)|]. rewrite unskip_skip. reflexivity. }
+      assert (Ep : a p == - S0) by (unfold a; rewrite Nat.eqb_refl; reflexivity).
+      exists a. split.
+      * exists (skip p i0). split; [apply skip_lt; exact Hi0|]. rewrite Ea. apply (Rtimes_neq_0 sor). split; assumption.
+      * intros j Hj. rewrite (rsum_split_at n _ p Hp'). rewrite Ep.
+        rewrite (rsum_ext n (fun i => M j (skip p i) * a (skip p i)) (fun i => M m p * (M j (skip p i) * b i)))
+          by (intros i _; rewrite Ea; ring).
+        rewrite rsum_scale_l.
+        destruct (Nat.eq_dec j m) as [->|Hne].
+        -- fold S0. ring.
+        -- assert (Hj' : (j < m)%nat) by lia. specialize (Hs j Hj'). unfold M' in Hs.
+           rewrite (rsum_ext n _ (fun i => M m p * (M j (skip p i) * b i) + - (M j p * (M m (skip p i) * b i)))) in Hs
+             by (intros i _; ring).
+           rewrite rsum_add, rsum_opp, !rsum_scale_l in Hs. fold S0 in Hs.
+           assert (E : M j p * - S0 + M m p * rsum n (fun i => M j (skip p i) * b i)
+                       == M m p * rsum n (fun i => M j (skip p i) * b i) + - (M j p * S0)) by ring.
+           rewrite E. exact Hs.
+Qed.
+
+End FiniteSums.
+
+Section RootsGeneral.
+Variable V : Type.
+Variable ipV : V -> V -> R.
+Variable H : V -> V.
+Variable vzero : V.
+Variable vadd : V -> V -> V.
+Variable vscale : R -> V -> V.
+Hypothesis ip_sym : forall x y, ipV x y == ipV y x.
+Hypothesis ip_zero_r : forall x, ipV x vzero == 0.
+Hypothesis ip_add_r : forall x y z, ipV x (vadd y z) == ipV x y + ipV x z.
+Hypothesis ip_scale_r : forall x a y, ipV x (vscale a y) == a * ipV x y.
+Hypothesis H_sym : forall x y, ipV x (H y) == ipV (H x) y.
+Hypothesis H_zero : forall z, ipV z (H vzero) == 0.
+Hypothesis H_add : forall z x y, ipV z (H (vadd x y)) == ipV z (H x) + ipV z (H y).
+Hypothesis H_scale : forall z a x, ipV z (H (vscale a x)) == a * ipV z (H x).
+
+Fixpoint lincomb (n : nat) (a : nat -> R) (y : nat -> V) : V :=
+  match n with O => vzero | S k => vadd (lincomb k a y) (vscale (a k) (y k)) end.
+
+Lemma lincomb_ip z n a y : ipV z (lincomb n a y) == rsum n (fun i => a i * ipV z (y i)).
+Proof. induction n as [|n IH]; cbn [lincomb rsum]; [apply ip_zero_r|]. rewrite ip_add_r, ip_scale_r, IH. reflexivity. Qed.
+Lemma lincomb_H z n a y : ipV z (H (lincomb n a y)) == rsum n (fun i => a i * ipV z (H (y i))).
+Proof. induction n as [|n IH]; cbn [lincomb rsum]; [apply H_zero|]. rewrite H_add, H_scale, IH. reflexivity. Qed.
+
+(* k orthonormal Ritz vectors y_0..y_{k-1} with Ritz values theta_i <= top; v_0..v_{k-2} the lowest exact
+   eigenvectors (only "H >= lamk on their orthogonal complement" is used) *)
+Variable k : nat.
+Variable y : nat -> V.
+Variable theta : nat -> R.
+Variable top : R.
+Hypothesis orthonormal : forall i j, (i < k)%nat -> (j < k)%nat -> ipV (y i) (y j) == kd i j.
+Hypothesis ritz : forall i j, (i < k)%nat -> (j < k)%nat -> ipV (y i) (H (y j)) == theta i * kd i j.
+Hypothesis theta_top : forall i, (i < k)%nat -> theta i <= top.
+Variable v : nat -> V.
+Variable lamk : R.
+Hypothesis spectral : forall x, (forall j, (S j < k)%nat -> ipV (v j) x == 0) -> lamk * ipV x x <= ipV x (H x).
+Hypothesis kpos : (0 < k)%nat.
+
+Lemma comb_norm_k a : ipV (lincomb k a y) (lincomb k a y) == rsum k (fun i => a i * a i).
+Proof.
+  rewrite lincomb_ip. apply rsum_ext. intros i Hi. rewrite (ip_sym (lincomb k a y) (y i)), lincomb_ip.
+  rewrite (rsum_ext k _ (fun j => a j * kd i j)) by (intros j Hj; rewrite orthonormal by assumption; reflexivity).
+  rewrite rsum_delta by exact Hi. reflexivity.
+Qed.
+Lemma comb_energy_k a : ipV (lincomb k a y) (H (lincomb k a y)) == rsum k (fun i => theta i * (a i * a i)).
+Proof.
+  rewrite lincomb_H. apply rsum_ext. intros i Hi.
+  rewrite H_sym, (ip_sym (H (lincomb k a y)) (y i)), lincomb_H.
+  rewrite (rsum_ext k _ (fun j => (a j * theta i) * kd i j)) by (intros j Hj; rewrite ritz by assumption; ring).
+  rewrite rsum_delta by exact Hi. ring.
+Qed.
+
+Theorem roots_minmax : lamk <= top.
+Proof.
+  destruct (homogeneous_solution (Nat.pred k) k (fun j i => ipV (v j) (y i)) ltac:(lia)) as [a [[i0 [Hi0 Ha0]] Hs]].
+  set (x := lincomb k a y).
+  assert (Hn : ipV x x == rsum k (fun i => a i * a i)) by (unfold x; apply comb_norm_k).
+  assert (He : ipV x (H x) == rsum k (fun i => theta i * (a i * a i))) by (unfold x; apply comb_energy_k).
+  assert (Hpos : 0 < ipV x x).
+  { rewrite Hn. apply rsum_pos; [intros i _; apply (Rtimes_square_nonneg sor)|].
+    exists i0. split; [exact Hi0|]. apply (sor_sq_pos R rO rI rplus rtimes rminus ropp req rle rlt sor). exact Ha0. }
+  apply (sor_mul_le_cancel_r R rO rI rplus rtimes rminus ropp req rle rlt sor lamk top (ipV x x) Hpos).
+  apply (Rle_trans sor _ (ipV x (H x))).
+  - apply spectral. intros j Hj. assert (Hj' : (j < Nat.pred k)%nat) by lia. unfold x. rewrite lincomb_ip.
+    rewrite (rsum_ext k _ (fun i => ipV (v j) (y i) * a i)) by (intros; ring). apply Hs. exact Hj'.
+  - rewrite He, Hn, <- rsum_scale_l. apply rsum_le. intros i Hi.
+    apply (sor_mul_le_mono_nonneg_r R rO rI rplus rtimes rminus ropp req rle rlt sor); [apply theta_top; exact Hi|apply (Rtimes_square_nonneg sor)].
+Qed.
+
+End RootsGeneral.
+
 End Variational.
